@@ -44,6 +44,11 @@ def shapes():
         "overload": lambda o2: [dict({"decl": "void ftwo(int a)"}, **o2), {"decl": "void ftwo(double b)"},
                                 {"decl": "int fone(int a)"}],
         "string": lambda o2: [{"decl": "void fone(const std::string & s)"}, dict({"decl": "void ftwo(double b)"}, **o2)],
+        # results that need the library's utility file (util<lib>.cpp: capsule destructors, string / array copies)
+        "utility": lambda o2: [{"decl": "const std::string & fone(int a)"},
+                               {"decl": "int * fthree(int n) +owner(caller)+dimension(n)+deref(pointer)"},
+                               {"decl": "class Cone", "declarations": [{"decl": "Cone()"}, {"decl": "~Cone()"}]},
+                               dict({"decl": "void ftwo(double b)"}, **o2)],
         # the override sits deep inside: a wrapper switched on only there still has to be written
         "ns-inner": lambda o2: [{"decl": "namespace outer", "declarations": [{"decl": "int fone(int a)"},
                                                                              dict({"decl": "void ftwo(double b)"}, **o2)]}],
